@@ -54,7 +54,7 @@ def run(ctx):
         "a generated object is written once (Write stores the masks of children in the children: a second Write under field_mask_halfway would see them)",
     ]
     if exe:
-        rc, gen = core.sh([exe, "extract"])
+        rc, gen = core.sh([exe, "extract", "-repo", core.REPO])
         ok = rc == 0 and "def tpl" in gen
         ctx.obligation("translator:c13-extract", ok, "" if ok else gen[-2000:])
         if ok:
